@@ -27,7 +27,7 @@ structure Msg where
   /-- public attributes in `__dict__` order -/
   env : Env
   immutable : Bool
-deriving Repr, Inhabited
+deriving Repr, Inhabited, DecidableEq
 
 inductive Ident where
   | known (n : Name)
@@ -162,10 +162,9 @@ def getDict (ctx : Ctx) (cls id : Bytes) (mode : Mode) (kw : Kw) : R Defn :=
 
 /-- `_do_len_checksum` -/
 def lenChecksum (cls id : Bytes) (payload : Option Bytes) : R (Bytes × Bytes) :=
-  let p := payload.getD []
-  if p.length < 65536 then
-    let l := toLE 2 p.length
-    .ok (l, calcChecksum (cls ++ id ++ l ++ p))
+  if (payload.getD []).length < 65536 then
+    .ok (toLE 2 (payload.getD []).length,
+         calcChecksum (cls ++ id ++ toLE 2 (payload.getD []).length ++ payload.getD []))
   else .error .overflowE
 
 /-- the `except` clauses of `_do_attributes` (after fixes f2f2bdb, 9d426cd): the listed exceptions
@@ -173,32 +172,37 @@ def lenChecksum (cls id : Bytes) (payload : Option Bytes) : R (Bytes × Bytes) :
 def translateExc (ctx : Ctx) (e : Exc) : Exc :=
   if ctx.catchType.contains e then .ubxType else e
 
+def walkCtx (ctx : Ctx) (cls id : Bytes) (mode : Mode) (parsebf : Bool) (kw : Kw) : WCtx :=
+  { ctx := ctx, parsebf := parsebf, hasPayload := (kwPayload? kw).isSome,
+    kwargs := (match kw with | .attrs l => l | _ => []),
+    cfgval := cls = [0x06] && ((id = [0x8b] && mode = .get) || (id = [0x8a] && mode = .set)),
+    esfmeas := cls = [0x10] && id = [0x02] && mode = .set }
+
+/-- the body of `_do_attributes` before `_do_len_checksum`: final payload and attributes -/
+def walkFor (ctx : Ctx) (cls id : Bytes) (mode : Mode) (parsebf : Bool) (kw : Kw) : R (Option Bytes × Env) :=
+  match kw with
+  | .empty => .ok (none, [])
+  | _ =>
+    match getDict ctx cls id mode kw with
+    | .error e => .error e
+    | .ok defn =>
+      match wItems (walkCtx ctx cls id mode parsebf kw) [] defn ⟨0, (kwPayload? kw).getD [], []⟩ with
+      | .error e => .error e
+      | .ok st => .ok (some st.payload, st.env)
+
 /-- constructor with class and id already as bytes -/
 def construct (ctx : Ctx) (cls id : Bytes) (modeN : Nat) (parsebf : Bool) (kw : Kw) : R Msg :=
   match Mode.ofNat? modeN with
   | none => .error .ubxMessage
   | some mode =>
-    let walked : R (Option Bytes × Env) :=
-      match kw with
-      | .empty => .ok (none, [])
-      | _ => do
-        let p0 : Bytes := (kwPayload? kw).getD []
-        let defn ← getDict ctx cls id mode kw
-        let wc : WCtx := {
-          ctx := ctx, parsebf := parsebf, hasPayload := (kwPayload? kw).isSome,
-          kwargs := (match kw with | .attrs l => l | _ => []),
-          cfgval := cls = [0x06] && ((id = [0x8b] && mode = .get) || (id = [0x8a] && mode = .set)),
-          esfmeas := cls = [0x10] && id = [0x02] && mode = .set }
-        let st ← wItems wc [] defn ⟨0, p0, []⟩
-        pure (some st.payload, st.env)
-    let r : R Msg := do
-      let (payload, env) ← walked
-      let (len, ck) ← lenChecksum cls id payload
-      pure { cls := cls, id := id, mode := mode, payload := payload, length := len, checksum := ck,
-             parsebf := parsebf, env := env, immutable := true }
-    match r with
-    | .ok m => .ok m
+    match walkFor ctx cls id mode parsebf kw with
     | .error e => .error (translateExc ctx e)
+    | .ok pe =>
+      match lenChecksum cls id pe.1 with
+      | .error e => .error (translateExc ctx e)
+      | .ok lc =>
+        .ok { cls := cls, id := id, mode := mode, payload := pe.1, length := lc.1, checksum := lc.2,
+              parsebf := parsebf, env := pe.2, immutable := true }
 
 /-- `serialize()` -/
 def Msg.serialize (m : Msg) : Bytes :=
@@ -245,31 +249,27 @@ def pySlice (p : Bytes) (a b : Int) : Bytes :=
   let norm (x : Int) : Nat := (if x < 0 then (if x + n < 0 then 0 else x + n) else if x > n then n else x).toNat
   slice p (norm a) (norm b)
 
+/-- the payload `parse` hands to the constructor: `None` when the length field is `00 00` -/
+def parsePayload (message : Bytes) : Option Bytes :=
+  if slice message 4 6 = [0, 0] then none else some (pySlice message 6 ((message.length : Int) - 2))
+
+/-- the three tests made under `validate & VALCKSUM` (each failure raises UBXParseError):
+    header, `len(message) - 8 == length field` (fix 8176d01), checksum -/
+def validFrame (message : Bytes) : Bool :=
+  slice message 0 2 == [0xb5, 0x62]
+  && ((message.length : Int) - 8 == (fromLE (slice message 4 6) : Int))
+  && pySlice message ((message.length : Int) - 2) message.length
+      == calcChecksum (slice message 2 3 ++ slice message 3 4 ++ slice message 4 6 ++ (parsePayload message).getD [])
+
 /-- `UBXReader.parse(message, msgmode, validate, parsebitfield)` (after fix 8176d01) -/
 def parse (ctx : Ctx) (msgmode validate : Nat) (parsebf : Bool) (message : Bytes) : R Msg :=
-  if msgmode > 3 then .error .ubxParse else
-  let lenm : Int := message.length
-  let hdr := slice message 0 2
-  let clsid := slice message 2 3
-  let msgid := slice message 3 4
-  let lenb := slice message 4 6
-  let payload : Option Bytes := if lenb = [0, 0] then none else some (pySlice message 6 (lenm - 2))
-  let ckm := pySlice message (lenm - 2) lenm
-  let ckv := calcChecksum (clsid ++ msgid ++ lenb ++ payload.getD [])
-  let bad : Option Exc :=
-    if validate &&& 1 ≠ 0 then
-      if hdr ≠ [0xb5, 0x62] then some .ubxParse
-      else if lenm - 8 ≠ (fromLE lenb : Int) then some .ubxParse
-      else if ckm ≠ ckv then some .ubxParse
-      else none
-    else none
-  match bad with
-  | some e => .error e
-  | none =>
+  if msgmode > 3 then .error .ubxParse
+  else if validate &&& 1 ≠ 0 ∧ validFrame message = false then .error .ubxParse
+  else
     let mode := if msgmode = 3 then (getinputmode ctx message).toNat else msgmode
-    match payload with
-    | none => construct ctx clsid msgid mode true .empty
-    | some p => construct ctx clsid msgid mode parsebf (.payload p)
+    match parsePayload message with
+    | none => construct ctx (slice message 2 3) (slice message 3 4) mode true .empty
+    | some p => construct ctx (slice message 2 3) (slice message 3 4) mode parsebf (.payload p)
 
 /-! ### `__str__`: only *whether it raises* is modelled -/
 
